@@ -354,6 +354,15 @@ Definition m_op (s o : omd) (op_ : op) : res (omd * out) :=
   | EqPairs ne l => Ok (s, OBool (xorb_ne ne (m_eq_omd s (m_from_pairs l))))
   | EqMap ne m => do b <- m_eq_map s m; Ok (s, OBool (xorb_ne ne b))
   | EqJunk ne => Ok (s, OBool (xorb_ne ne false))
+  (* dict.__or__ / __ror__ on a subclass: merged through keys() and __getitem__ *)
+  | OrMap m => do l <- m_items1 s; Ok (s, OPairs (dict_merge l m))
+  | ROrMap m => do l <- m_items1 s; Ok (s, OPairs (dict_merge m l))
+  (* the loop of update()/update_extend() runs over the well-formed prefix, then the malformed
+     item raises (unpacking, or hashing the key in `k not in seen` / dict.setdefault) *)
+  | UpdateBad l b => do s1 <- upd_pairs s [] l; Ok (s1, ORaised (bad_exn b))
+  | UpdateExtendBad l b => Ok (add_all s l, ORaised (bad_exn b))
+  | AddListBad _ => Ok (s, ORaised TypeError)         (* v = list(v) raises first *)
+  | BadKey _ => Ok (s, ORaised TypeError)             (* hashing the key raises before any effect *)
   end.
 
 (* all raising paths of the code that the property allows (KeyError on a missing
